@@ -268,3 +268,65 @@ def option_choice_rules(chk, cid, prog, p, cfgname):
                             'the row permutation of a previous factorization may steer the pivoting only for Fact = SamePattern_SameRowPerm (for SamePattern perm_r is '
                             'output only, so the result would depend on what the array held): %s' % bad, cfgname=cfgname)
     return n
+
+
+def relax_width_rule(chk, cid, prog, cfgname):
+    """A relaxed supernode rooted at column j has descendants[j] + 1 columns.  ?gstrf / ?gsitrf count supernode widths in stat->panel_histo[w],
+    which StatInit allocates with max(panel_size, relax) + 1 entries, so a relaxed supernode may have at most `relax` columns: the four
+    relaxation routines may climb to a parent only while descendants[parent] < relax_columns (strictly)."""
+    from ..facts import strip, canon, loc
+    from ..ir import pretty
+    from .kernels import ienv_value
+    n = 0
+    for fname in ('relax_snode', 'heap_relax_snode', 'ilu_relax_snode', 'ilu_heap_relax_snode'):
+        f = prog.func(fname)
+        if f is None:
+            from ..run import AnalysisBroken
+            raise AnalysisBroken('%s not found' % fname)
+        chk.saw(unit=f.unit, func=f.unit + ':' + f.name)
+        found = []
+        for x in f.body.walk():
+            if x.k == 'While':
+                for (a, pol) in [(a, pol) for conj in _dnf(x.c[0]) for (a, pol) in conj]:
+                    a = strip(a)
+                    if a.k == 'Binary' and 'descendants[parent]' in canon(a, ids=False) and 'relax_columns' in canon(a, ids=False):
+                        found.append((a, pol, x))
+        n += 1
+        inst = '%s:relaxed-supernode-at-most-relax-columns' % fname
+        ok = False
+        if len(found) == 1:
+            a, pol, lp = found[0]
+            l, r, op = canon(a.c[0], ids=False), canon(a.c[1], ids=False), a.a['op']
+            if not pol:
+                op = {'<': '>=', '<=': '>', '>': '<=', '>=': '<', '==': '!=', '!=': '=='}[op]
+            ok = (l == 'descendants[parent]' and r == 'relax_columns' and op == '<') or (l == 'relax_columns' and r == 'descendants[parent]' and op == '>')
+        if ok:
+            chk.ok(cid, inst, sample=pretty(found[0][0]))
+        else:
+            chk.violate(cid, inst, loc(f, found[0][2] if found else f.body), fname,
+                        'the climb to the parent must be guarded by `descendants[parent] < relax_columns` (a relaxed supernode of relax+1 columns indexes '
+                        'stat->panel_histo one past its max(panel_size, relax) + 1 entries); found %s' % ([pretty(a) for (a, p_, l_) in found] or 'no such test'),
+                        cfgname=cfgname)
+    g = prog.func('StatInit')
+    if g is not None:
+        n += 1
+        chk.saw(unit=g.unit, func=g.unit + ':' + g.name)
+        ok = False
+        for x in g.body.walk():
+            if x.k == 'Assign' and 'panel_histo' in canon(x.c[0], ids=False):
+                for y in x.c[1].walk():
+                    if y.k == 'Binary' and y.a['op'] == '+':
+                        from ..facts import const_value
+                        for a, b in ((y.c[0], y.c[1]), (y.c[1], y.c[0])):
+                            if const_value(b) == 1 and ienv_value(g, a) == ('max', frozenset((('ienv', 1), ('ienv', 2)))):
+                                ok = True
+        if ok:
+            chk.ok(cid, 'StatInit:histogram-extent', sample='max(sp_ienv(1), sp_ienv(2)) + 1')
+        else:
+            chk.violate(cid, 'StatInit:histogram-extent', loc(g, g.body), 'StatInit', 'panel_histo must have max(panel_size, relax) + 1 entries', cfgname=cfgname)
+    return n
+
+
+def _dnf(e):
+    from .r2_argcheck import dnf
+    return dnf(e)
